@@ -16,6 +16,9 @@ REPLAY_DIR = os.path.join(VERIF_DIR, "replays")
 BASELINE_DIR = os.path.join(VERIF_DIR, "baseline")
 
 
+_replay_seq = 0
+
+
 def load_baseline(pid):
     p = os.path.join(BASELINE_DIR, pid + ".json")
     if os.path.exists(p):
@@ -27,7 +30,9 @@ def load_baseline(pid):
 def write_replay(pid, name, payload):
     os.makedirs(REPLAY_DIR, exist_ok=True)
     safe = "".join(ch if ch.isalnum() or ch in "-_." else "_" for ch in name)[:80]
-    p = os.path.join(REPLAY_DIR, "%s_%s_%d.json" % (pid, safe, int(time.time() * 1000) % 100000000))
+    global _replay_seq
+    _replay_seq += 1
+    p = os.path.join(REPLAY_DIR, "%s_%s_%d_%03d.json" % (pid, safe, int(time.time() * 1000) % 100000000, _replay_seq))
     with open(p, "w") as f:
         json.dump(payload, f, indent=1, default=str)
     return p
